@@ -60,7 +60,7 @@ func (c *capabilities) Tagging() bool {
 }
 
 type counter struct {
-	prev        int64
+	// n.b. curr holds what has been added since the last report.
 	curr        int64
 	cachedCount CachedCount
 }
@@ -74,20 +74,11 @@ func (c *counter) Inc(v int64) {
 }
 
 func (c *counter) value() int64 {
-	// Claim the delta with a compare-and-swap so that concurrent report passes
-	// (the report loop, Close and the report of a closed scope on re-acquire)
-	// each hand out a disjoint part of the total. prev is read before curr so
-	// that a delta is never negative when all increments are non-negative.
-	for {
-		prev := atomic.LoadInt64(&c.prev)
-		curr := atomic.LoadInt64(&c.curr)
-		if prev == curr {
-			return 0
-		}
-		if atomic.CompareAndSwapInt64(&c.prev, prev, curr) {
-			return curr - prev
-		}
-	}
+	// n.b. Take the unreported amount in one atomic step: report passes can run
+	//      concurrently (the report loop, Close, and the report of a closed scope
+	//      when it is requested again), and each increment must be handed to
+	//      exactly one of them.
+	return atomic.SwapInt64(&c.curr, 0)
 }
 
 func (c *counter) report(name string, tags map[string]string, r StatsReporter) {
@@ -109,7 +100,7 @@ func (c *counter) cachedReport() {
 }
 
 func (c *counter) snapshot() int64 {
-	return atomic.LoadInt64(&c.curr) - atomic.LoadInt64(&c.prev)
+	return atomic.LoadInt64(&c.curr)
 }
 
 type gauge struct {
